@@ -315,19 +315,24 @@ type typeGuesser struct {
 }
 
 func (g *typeGuesser) Guess() (SchemaType, error) {
-	m := map[SchemaType]func() bool{
-		SchemaTypeString:  g.isString,
-		SchemaTypeInteger: g.isInteger,
-		SchemaTypeFloat:   g.isFloat,
-		SchemaTypeBoolean: g.isBoolean,
-		SchemaTypeObject:  g.isObject,
-		SchemaTypeArray:   g.isArray,
-		SchemaTypeNull:    g.isNull,
+	// The order matters: the predicates overlap (a quoted string containing a
+	// dot also looks like a float), so the first match must be deterministic.
+	m := []struct {
+		t  SchemaType
+		fn func() bool
+	}{
+		{SchemaTypeObject, g.isObject},
+		{SchemaTypeArray, g.isArray},
+		{SchemaTypeString, g.isString},
+		{SchemaTypeBoolean, g.isBoolean},
+		{SchemaTypeNull, g.isNull},
+		{SchemaTypeInteger, g.isInteger},
+		{SchemaTypeFloat, g.isFloat},
 	}
 
-	for t, fn := range m {
-		if fn() {
-			return t, nil
+	for _, x := range m {
+		if x.fn() {
+			return x.t, nil
 		}
 	}
 	return SchemaTypeUndefined, errs.ErrUnableToDetermineTheTypeOfJsonValue.F()
